@@ -1,6 +1,7 @@
 package core
 
 import (
+	"sync/atomic"
 	"encoding/json"
 	"fmt"
 	"os"
@@ -34,6 +35,9 @@ type Args struct {
 	TreeID      string   `json:"tree_id"`
 	Scenario    string   `json:"scenario"` // restrict to one scenario (optional)
 	Engine      string   `json:"engine"`   // "A" (bubble/go1.26) or "B" (race/go1.23)
+	// HangS: a single run that is still executing after this many seconds of wall
+	// time is reported as a hang candidate (0: default 60; runs take milliseconds).
+	HangS float64 `json:"hang_s"`
 }
 
 // ReplayFile is the on-disk format of a violation's replay: scenario + choice trace.
@@ -52,6 +56,9 @@ type ReplayFile struct {
 	TreeID   string   `json:"tree_id,omitempty"`
 	Engine   string   `json:"engine,omitempty"`
 	OrigLen  int      `json:"original_trace_len,omitempty"`
+	// FromSeed: the run never finished, so there is no choice trace; the replay draws
+	// from the generator seeded with Seed, which reproduces the same execution.
+	FromSeed bool `json:"from_seed,omitempty"`
 }
 
 type agg struct {
@@ -166,6 +173,44 @@ func Main(all []*Scenario) {
 	os.Exit(2)
 }
 
+// Hang detection. A run is a few milliseconds of work (the slowest families, with a
+// linearizability check, stay under a few seconds); one that is still executing
+// after hangLimit seconds of wall time is a candidate for "does not terminate".
+// The driver confirms a candidate by replaying its seed in two fresh processes
+// under the same limit before it is reported.
+type runMark struct {
+	Run      int
+	Scenario string
+	Seed     uint64
+	Start    time.Time
+}
+
+type hangReport struct {
+	Run      int     `json:"run"`
+	Scenario string  `json:"scenario"`
+	Seed     uint64  `json:"seed"`
+	Seconds  float64 `json:"seconds"`
+}
+
+func (a *Args) hangLimit() time.Duration {
+	if a.HangS > 0 {
+		return time.Duration(a.HangS * float64(time.Second))
+	}
+	return 60 * time.Second
+}
+
+func hangWatch(cur *atomic.Pointer[runMark], limit time.Duration, onHang func(*runMark, time.Duration)) {
+	for {
+		time.Sleep(500 * time.Millisecond)
+		if m := cur.Load(); m != nil {
+			if el := time.Since(m.Start); el > limit {
+				onHang(m, el)
+				return
+			}
+		}
+	}
+}
+
 func worker(all []*Scenario, a *Args) int {
 	scns := scenariosFor(all, a)
 	if len(scns) == 0 {
@@ -179,13 +224,21 @@ func worker(all []*Scenario, a *Args) int {
 	scheds := map[uint64]struct{}{}
 	states := map[uint64]struct{}{}
 	sampled := map[string]bool{}
+	var cur atomic.Pointer[runMark]
+	go hangWatch(&cur, a.hangLimit(), func(m *runMark, el time.Duration) {
+		data, _ := json.Marshal(hangReport{Run: m.Run, Scenario: m.Scenario, Seed: m.Seed, Seconds: el.Seconds()})
+		os.WriteFile(a.Out+".hang", data, 0o644)
+		os.Exit(4)
+	})
 	for k := a.Index; a.MaxRuns <= 0 || k < a.MaxRuns; k += a.Workers {
 		if time.Since(start).Seconds() > a.BudgetS {
 			break
 		}
 		scn := wheel[k%len(wheel)]
 		seed := mixSeed(a.Seed, k)
+		cur.Store(&runMark{Run: k, Scenario: scn.Name, Seed: seed, Start: time.Now()})
 		res := RunOne(scn, a.Tier, seed, NewChoices(seed), false)
+		cur.Store(nil)
 		checkRace(res, scn.Property)
 		g.Runs++
 		g.PerScen[scn.Name]++
@@ -277,9 +330,25 @@ func replay(all []*Scenario, a *Args) int {
 		fmt.Fprintln(os.Stderr, "unknown scenario", rf.Scenario)
 		return 2
 	}
-	res := RunOne(scn, rf.Tier, rf.Seed, NewReplay(rf.Choices), true)
+	choices := func() *Choices {
+		if rf.FromSeed {
+			return NewChoices(rf.Seed)
+		}
+		return NewReplay(rf.Choices)
+	}
+	var cur atomic.Pointer[runMark]
+	cur.Store(&runMark{Scenario: scn.Name, Seed: rf.Seed, Start: time.Now()})
+	go hangWatch(&cur, a.hangLimit(), func(m *runMark, el time.Duration) {
+		fmt.Printf("replay: %s %s/hang/%s\nthe run did not finish within %.0f s of wall time\n", scn.Property, scn.Property, scn.Name, el.Seconds())
+		if strings.Contains(rf.Class, "/hang/") {
+			os.Exit(1)
+		}
+		os.Exit(3)
+	})
+	res := RunOne(scn, rf.Tier, rf.Seed, choices(), true)
+	cur.Store(nil)
 	checkRace(res, scn.Property)
-	if EngineB && res.Violation == nil && res.Harness == "" {
+	if EngineB && res.Violation == nil && res.Harness == "" && !rf.FromSeed {
 		// Race detection depends on happens-before edges, and the first run of a fresh
 		// process creates many incidental ones (lazily initialised caches in encoding/json,
 		// net/http, regexp ... are filled by whichever task gets there first), which can
@@ -444,6 +513,7 @@ func driver(all []*Scenario, a *Args) int {
 	scheds := map[uint64]struct{}{}
 	states := map[uint64]struct{}{}
 	broken := ""
+	var hang *hangReport
 	for i, cmd := range cmds {
 		err := cmd.Wait()
 		errOut, _ := os.ReadFile(filepath.Join(tmp, fmt.Sprintf("w%d.err", i)))
@@ -452,6 +522,13 @@ func driver(all []*Scenario, a *Args) int {
 			code := -1
 			if ee, ok := err.(*exec.ExitError); ok {
 				code = ee.ExitCode()
+			}
+			if hd, herr := os.ReadFile(filepath.Join(tmp, fmt.Sprintf("w%d.json.hang", i))); code == 4 && herr == nil {
+				var hr hangReport
+				if json.Unmarshal(hd, &hr) == nil && (hang == nil || hr.Run < hang.Run) {
+					hang = &hr
+				}
+				continue
 			}
 			broken = fmt.Sprintf("worker %d died (exit %d) without a result: %v\n%s", i, code, err, tail(string(errOut), 4000))
 			continue
@@ -497,7 +574,16 @@ func driver(all []*Scenario, a *Args) int {
 
 	violations := 0
 	replayPath := ""
-	if total.Violation != nil {
+	if total.Violation == nil && hang != nil {
+		rp, detail, err := confirmHang(a, tmp, hang)
+		if err != nil {
+			fmt.Fprintln(os.Stderr, "HARNESS ERROR (exit 2): a worker reported a run that did not finish, but", err)
+			return 2
+		}
+		violations, replayPath = 1, rp
+		total.Violation = &Result{Scenario: hang.Scenario, Seed: hang.Seed, Violation: &Violation{Property: a.Property, Class: a.Property + "/hang/" + hang.Scenario, Detail: detail}}
+		total.ViolRun = hang.Run
+	} else if total.Violation != nil {
 		violations = 1
 		rp, err := minimiseAndConfirm(a, tmp, total.Violation, total.ViolRun)
 		if err != nil {
@@ -617,6 +703,37 @@ func minimiseAndConfirm(a *Args, tmp string, res *Result, run int) (string, erro
 		return "", err
 	}
 	return path, nil
+}
+
+// confirmHang replays the seed of a run that did not finish in two fresh processes,
+// each under the same wall-clock limit; both must hit the limit again.
+func confirmHang(a *Args, tmp string, h *hangReport) (string, string, error) {
+	class := a.Property + "/hang/" + h.Scenario
+	detail := fmt.Sprintf("run %d of scenario %s (seed %d) was still executing after %.0f s of wall time, in the worker and again in two fresh processes replaying the same seed; runs of this scenario normally take milliseconds. There is no choice trace to minimise (the run never ends); the replay draws from the seed.", h.Run, h.Scenario, h.Seed, a.hangLimit().Seconds())
+	rf := &ReplayFile{Property: a.Property, Scenario: h.Scenario, Tier: a.Tier, Seed: h.Seed, Run: h.Run, Class: class, Detail: detail, FromSeed: true, TreeID: a.TreeID, Engine: a.Engine}
+	os.MkdirAll(a.ReplayDir, 0o755)
+	path := filepath.Join(a.ReplayDir, fmt.Sprintf("%s-%s-%d-%d.json", a.Property, a.Tier, a.Seed, h.Run))
+	data, _ := json.MarshalIndent(rf, "", " ")
+	if err := os.WriteFile(path, data, 0o644); err != nil {
+		return "", "", err
+	}
+	for i := 0; i < 2; i++ {
+		ra := *a
+		ra.Mode = "replay"
+		ra.ReplayFile = path
+		ra.Out = ""
+		cmd := spawn(&ra, nil, nil)
+		err := cmd.Run()
+		code := 0
+		if ee, ok := err.(*exec.ExitError); ok {
+			code = ee.ExitCode()
+		}
+		if code != 1 {
+			os.Rename(path, strings.TrimSuffix(path, ".json")+".unconfirmed.json")
+			return "", "", fmt.Errorf("replaying seed %d of %s in a fresh process exited %d instead of hitting the limit again", h.Seed, h.Scenario, code)
+		}
+	}
+	return path, detail, nil
 }
 
 // dettest: determinism self-test. Runs the first MaxRuns runs and prints one line
